@@ -74,7 +74,11 @@ def registry(rep, names):
     m_pairs = 0
     for nm in sorted(names & reg):
         fn = d.DISTANCES[nm]
-        want = [[float(fn(Zs[i].copy(), Zs[j].copy())) for j in range(len(Zs))] for i in range(len(Zs))]
+        try:
+            want = [[float(fn(Zs[i].copy(), Zs[j].copy())) for j in range(len(Zs))] for i in range(len(Zs))]
+        except Exception as ex:
+            rep.violation("DISTANCES[%s]" % nm, "metric_raised_on_in_domain_vectors", nm, {"metric": nm, "vectors": Zs.tolist(), "exception": "%s: %s" % (type(ex).__name__, str(ex)[:100])})
+            continue
         try:
             pth = os.path.join(tmp, "pc.txt")
             g.pre_compute_distance(Zs.copy(), pth, nm)
